@@ -25,6 +25,7 @@ func (c *Ctx) runPathsWith(fd *ast.FuncDecl, conf func(*SX)) ([]*Path, string) {
 		}
 	}
 	v := c.view(fd)
+	paths = v.flagNorm(paths)
 	if c.quietHeap(fd, paths) {
 		paths = v.collapseEpochs(paths)
 	}
